@@ -182,7 +182,16 @@ def t_regexp_retry():
             iff("t", "ge", 50, [op("fatalf", site=1)])]
 
 
+def t_custom_hard():
+    # a Custom function that draws from a Filter which often runs out of tries: the attempt of the Custom generator is then rejected as a whole
+    # (from inside a nested draw) and retried; the same inside a collection
+    hard = g("Custom", elem=g("Int8"), body=[draw(g("Filter", elem=IntRange(0, 20), pred="rare"), "f"), draw(g("Bool"), "i")])
+    return [draw(hard, "c"), draw(g("SliceOfN", elem=hard, minLen=0, maxLen=3), "cs"), draw(g("Int16"), "t", "t"), draw(g("SliceOf", elem=g("Byte")), "tail"),
+            iff("t", "ge", 50, [op("fatalf", site=1)])]
+
+
 TEMPLATES = {
+    "custom_hard": t_custom_hard,
     "makemap": t_makemap, "custom_empty": t_custom_empty, "sm2": t_sm2, "cleanup_skip_errorf": t_cleanup_skip_errorf, "regexp_retry": t_regexp_retry,
     "ctx": t_ctx,
     "threshold": lambda: t_threshold(), "threshold_u8": lambda: t_threshold("Uint8", 200), "threshold_neg": lambda: t_threshold("Int32", -5000, cmp="le"),
@@ -211,10 +220,17 @@ def c01(tier, seed):
     out = []
     # rejection-based generators with minimization cut at once: the reported case is the pruned original,
     # which must replay (forced stops, duplicate keys, over-long strings, skipped actions)
-    for tn in ("distinct", "map", "string", "sm", "custom", "filter", "makemap", "regexp_retry", "sm2"):
-        for sd in seeds(rng, 14 if tier == "quick" else 150):
+    for tn in ("distinct", "map", "string", "sm", "custom", "filter", "makemap", "regexp_retry", "sm2", "custom_hard"):
+        for sd in seeds(rng, (14 if tn != "custom_hard" else 70) if tier == "quick" else 150):
             out.append(scenario("c01-pruned-%s-%d-%d" % (tn, sd, len(out)), {"body": TEMPLATES[tn]()},
                                 {"checks": 100, "seed": sd, "nofailfile": "true", "shrinktime": "0s"}, tag={"template": tn, "shrink": "0s"}))
+    # a failure reproduced from a fail file is attributed to that file (the one whose test case is presented), also when -rapid.failfile names another, stale one
+    for i in range(3 if tier == "quick" else 30):
+        path = "elsewhere/other.fail"
+        stale = [failfile_text([0] * 12), failfile_text([9, 9], version="v0.0.1"), "garbage"][i % 3]
+        runs = [{}, {"files": [{"path": path, "text": stale}], "flags": {"failfile": path}}]
+        out.append(scenario("c01-ff-attribution-%d" % i, {"body": t_threshold("Int64", 1000)}, {"checks": 100, "seed": rng.randrange(1, 1 << 64)},
+                            runs=runs, name="TestAttribution", tag={"template": "threshold", "shrink": "full", "runs": 2}))
     names = sorted(TEMPLATES)
     nseeds = 3 if tier == "quick" else 25
     for tn in names:
@@ -544,10 +560,10 @@ def c05(tier, seed):
     out = []
     n = 12 if tier == "quick" else 300
     tmpl = ["multisite", "errorf_then_panic", "threshold", "distinct", "map", "filter", "sm", "string", "custom", "sampled", "nonfatal",
-            "makemap", "custom_empty", "regexp_retry", "sm2", "cleanup_skip_errorf"]
+            "makemap", "custom_empty", "regexp_retry", "sm2", "cleanup_skip_errorf", "custom_hard"]
     for i in range(n):
         for tn in tmpl:
-            if tier == "quick" and i >= 4 and tn not in ("multisite", "errorf_then_panic", "distinct", "makemap", "custom_empty"):
+            if tier == "quick" and i >= 4 and tn not in ("multisite", "errorf_then_panic", "distinct", "makemap", "custom_empty", "custom_hard"):
                 continue
             prop = {"body": TEMPLATES[tn]()}
             st = rng.choice(["0s", "full", "full", "cut"])
@@ -931,6 +947,7 @@ def c04_bodies():
         "regexp": [draw(g("StringMatching", expr="[a-c]{2,4}x?|\\d+"), "r"), draw(g("SliceOfBytesMatching", expr="(?i)ab*c"), "rb")],
         "regexp_retry": [draw(g("StringMatching", expr="[a-c]\\b."), "r"), draw(g("SliceOfBytesMatching", expr="^x?\\bfoo\\b|[a-z]$"), "rb"), draw(g("Int8"), "t")],
         "sm2": [op("repeat", actions={"left": [draw(g("Bool"), "b")], "right": [draw(g("Byte"), "c")]}), draw(g("Int8"), "after")],
+        "custom_hard": t_custom_hard()[:-1],
         "makemapbool": [draw(g("Make", type="mapboolint"), "mb"), draw(g("Make", type="mapbyteint"), "mi"), draw(g("Int8"), "t")],
         "floats": [draw(g("Float64"), "f"), draw(g("Float32Range", min="-1", max="1"), "g"), draw(g("Float64Range", min="0", max="inf"), "h")],
         "perm": [draw(g("Permutation", items=["1", "2", "3", "4"]), "p"), draw(g("OneOf", gens=[g("Int8"), IntRange(5, 6)]), "o"), draw(g("Ptr", elem=g("Int"), allowNil=True), "q")],
